@@ -438,6 +438,8 @@ impl WalkTree {
             },
             DepthBehavior::Unbounded => builder,
         };
+        #[cfg(olson_sean_k_wax_verif)]
+        let builder = verif::apply_entry_order(builder);
         WalkTree {
             is_dir: false,
             input: builder.into_iter(),
@@ -786,6 +788,76 @@ impl From<EntryResidue> for TreeResidue<()> {
             EntryResidue::File => TreeResidue::Node(()),
             EntryResidue::Tree => TreeResidue::Tree(()),
         }
+    }
+}
+
+/// Verification seams (deterministic simulation). Not compiled unless `--cfg olson_sean_k_wax_verif`.
+#[cfg(olson_sean_k_wax_verif)]
+pub mod verif {
+    use std::cell::RefCell;
+    use std::cmp::Ordering;
+    use std::path::Path;
+    use std::sync::Arc;
+    use walkdir::WalkDir;
+
+    use crate::filter::{Separation, TreeResidue};
+    use crate::walk::{Entry, FileIterator, WalkError};
+
+    /// Comparator over the paths of two entries of one directory.
+    pub type EntryOrder = Arc<dyn Fn(&Path, &Path) -> Ordering + Send + Sync>;
+
+    thread_local! {
+        static ENTRY_ORDER: RefCell<Option<EntryOrder>> = const { RefCell::new(None) };
+    }
+
+    /// Entry-order seam: sets the order in which each directory's entries are produced by walks
+    /// that are constructed on this thread from now on. `None` restores the native order of the
+    /// file system (the shipped behavior).
+    pub fn set_entry_order(order: Option<EntryOrder>) {
+        ENTRY_ORDER.with(|cell| *cell.borrow_mut() = order);
+    }
+
+    pub(super) fn apply_entry_order(builder: WalkDir) -> WalkDir {
+        match ENTRY_ORDER.with(|cell| cell.borrow().clone()) {
+            Some(order) => builder.sort_by(move |a, b| order(a.path(), b.path())),
+            None => builder,
+        }
+    }
+
+    /// How an item is separated at the point in a combinator stack where a tap sits.
+    #[derive(Clone, Copy, Debug, Eq, Hash, PartialEq)]
+    pub enum Fed {
+        Filtrate,
+        Error,
+        Node,
+        Tree,
+    }
+
+    /// Feed tap: a read-only pass-through observer of every item that is fed through it (filtrate
+    /// and residue). The separation is returned unchanged and the walk is never cancelled.
+    pub fn tap<I, F>(
+        input: I,
+        mut f: F,
+    ) -> impl FileIterator<Entry = I::Entry, Residue = I::Residue>
+    where
+        I: FileIterator,
+        I::Entry: 'static,
+        I::Residue: 'static,
+        F: FnMut(Fed, Option<&Path>),
+    {
+        input.filter_map_tree(move |_, separation: Separation<I::Feed>| {
+            match separation {
+                Separation::Filtrate(ref filtrate) => match filtrate.get() {
+                    Ok(ref entry) => f(Fed::Filtrate, Some(entry.path())),
+                    Err(ref error) => f(Fed::Error, WalkError::path(error)),
+                },
+                Separation::Residue(ref residue) => match residue.get() {
+                    TreeResidue::Node(ref entry) => f(Fed::Node, Some(entry.path())),
+                    TreeResidue::Tree(ref entry) => f(Fed::Tree, Some(entry.path())),
+                },
+            }
+            separation
+        })
     }
 }
 
